@@ -33,7 +33,7 @@ def main():
             findings.append(l.strip()[:300])
     meta = {
         "breaks_property": prop,
-        "origin": "written by an independent sub-agent (round %s) that saw only the property text, a target area and a scratch worktree of /repo at HEAD" % (sid[1] if sid[0] == "R" and sid[1] in "345" else "2: algorithmic core"),
+        "origin": "written by an independent sub-agent (round %s) that saw only the property text, a target area and a scratch worktree of /repo at HEAD" % (sid[1] if sid[0] == "R" and sid[1] in "345678" else "2: algorithmic core"),
         "needs_to_manifest": needs,
         "confirmed": "bin/confirm_seed.sh %s in the agent's scratch worktree: pinned suite passes with the change; OUT/demo.rs as tests/seed_demo.rs fails with the change and passes without it" % sid,
         "checked_with": "bin/seedcheck.py seeded/%s/patch.diff (scratch copy of /repo with the patch; all 16 claimed checks)" % sid,
